@@ -654,6 +654,33 @@ def rule_padding(ctx, f):
     ctx.floor("C06-PAD", n, 4, "padded cipher calls (2 data ciphers, 2 key ciphers)")
 
 
+def rule_pw_pad(ctx, f):
+    ctx.rule("C06-SIB-pad", "Algorithm 2 / 3 step a: the user and the owner key derivations both pad OR truncate the password to 32 bytes: each hashes `&pass[..32]` on "
+             "one branch and the password followed by `&PADDING[..32 - len]` on the other")
+    hs = [b for k, b in f.bodies.items() if "key_derivation_" in k.split("::")[-1] and b["kind"] != "Closure"]
+    if not ctx.floor("C06-SIB-pad", len(hs), 2, "password key derivations (user, owner)"):
+        return
+    for b in hs:
+        fl = Flow(b)
+        cut = pad = False
+        for bi, t in F.calls(b):
+            if last_seg(F.callee_name(t)) == "index" and len(t["args"]) == 2 and "RangeTo<usize>" in t["arg_tys"][1]["s"]:
+                rl = F.op_local(t["args"][1])
+                ends = []
+                for a in fl.origins(rl, passthrough=()) if rl is not None else []:
+                    if a[0] == "agg":
+                        ends += [F.const_int(o) for o in a[3][2]]
+                base_param = any(a[0] == "arg" for a in fl.origins(F.op_local(t["args"][0]))) if F.op_local(t["args"][0]) is not None else False
+                if 32 in ends and base_param and "[u8; 32]" not in t["arg_tys"][0]["s"]:
+                    cut = True
+                if "[u8; 32]" in t["arg_tys"][0]["s"]:
+                    pad = True
+        cmp32 = any(st[0] == "assign" and st[2][0] == "binop" and st[2][1] in ("Lt", "Le", "Gt", "Ge") and 32 in (F.const_int(st[2][2]), F.const_int(st[2][3])) for i, j, st in F.stmts(b))
+        ctx.check(cut and pad and cmp32, "C06-SIB-pad", b["id"].split("::")[-1] + "#pad-or-truncate", "the password is not padded or truncated to 32 bytes in %s (truncation %s, "
+                  "padding %s, length test %s): a password longer than 32 bytes that the sibling derivation accepts is rejected here" % (b["id"].split("::")[-1], cut, pad, cmp32),
+                  b["span"], detail="len < 32 ? pass + PADDING[..32 - len] : pass[..32]")
+
+
 def run(ctx):
     f = F.load("default")
     ctx.count("bodies", len(f.bodies))
@@ -666,6 +693,7 @@ def run(ctx):
     rule_wrongpw(ctx, f)
     rule_table(ctx, f)
     rule_padding(ctx, f)
+    rule_pw_pad(ctx, f)
     return ctx.finish(
         "Static analysis of MIR facts of crypt.rs / file.rs / parser: slice-length upper bounds of cipher keys against the "
         "cipher's key size; dominance of decrypt over filter application; dominance of the three exemption tests over every "
